@@ -126,10 +126,13 @@ func init() {
 			jobs = []gossipJob{
 				{P: P4(3, 2, 0, 1, 2, 1, true), Need: []string{"LeavesSeen", "Unreachables", "Relearned"}},
 				{P: P("S6", 165, 2, 3, 0, 1, true), Need: []string{"LeavesSeen", "Unreachables"}},
+				// the leaver keeps compacting after it left (periodic task)
+				{P: gw.Params{Name: "S4", N: 3, Digests: 2, Holds: 0, Ops: 4}, Need: []string{"LeavesSeen"}},
 			}
 		} else {
 			d := sec(900)
 			jobs = []gossipJob{
+				{P: gw.Params{Name: "S4", N: 3, Digests: 3, Holds: 1, Ops: 4}, Deadline: d, Need: []string{"LeavesSeen"}},
 				{P: P4(3, 3, 1, 1, 2, 2, true), Deadline: d, Need: []string{"LeavesSeen", "Unreachables", "Relearned"}},
 				{P: P4(3, 4, 0, -1, 2, 1, true), Deadline: d, Need: []string{"LeavesSeen", "Unreachables", "Relearned"}},
 				{P: P4(4, 2, 0, 1, 2, 1, true), Deadline: d, Need: []string{"LeavesSeen", "Unreachables", "Relearned"}},
